@@ -451,7 +451,7 @@ def isin(it, a, test):
     a = _arr(a)
     test = _arr(test)
     if isinstance(test, Arr):
-        pred = z3.Function(f"isin[{test.space.name}|{_key(test.mask)}|{_expr_key(test.e)}]", to_z(a.e).sort(), B)
+        pred = z3.Function(f"isin[{test.space.name},{_key(test.mask)},{_expr_key(test.e)}]", to_z(a.e).sort(), B)
         # axiom: the generic row's own value is a member
         m = z3.BoolVal(True) if test.mask is True else test.mask
         it.ctx.facts.append(z3.Implies(m, pred(to_z(test.e, to_z(a.e).sort()))))
@@ -468,7 +468,7 @@ def isin(it, a, test):
 
 def _expr_key(e):
     if isinstance(e, SV):
-        return z3.simplify(e.z).sexpr()[:200]
+        return _key(e.z == e.z) if False else __import__("hashlib").sha1(z3.simplify(e.z).sexpr().encode()).hexdigest()[:10]
     return repr(e)
 
 
@@ -504,6 +504,8 @@ def arr_attr(it, a, name):
         return nat(lambda it, **k: sum_(it, a))
     if name in ("flatten", "ravel", "squeeze"):
         return nat(lambda it: a)
+    if name in ("set_axis", "reset_index", "rename"):
+        return nat(lambda it, *x, **k: a)
     if name == "fill":
         return nat(lambda it, v: a.set_e(it, v), pure=False)
     if name == "shape":
